@@ -40,7 +40,7 @@ class BoundarySpec(Spec):
 
     def __init__(self, cfg, tier):
         super().__init__(cfg, tier)
-        self.time_budget = 35 if tier == "quick" else 800
+        self.time_budget = 150 if tier == "quick" else 800
         self.G = cfg["min_gap"]
         pv = cfg["payloads"]
         gv = [pv[0], pv[-1]] if cfg["garbage"] else [0]
@@ -108,7 +108,6 @@ class BoundarySpec(Spec):
                 if len(queue) == 1: self.cover["byte_after_pause"] += 1
             else:
                 queue.append((val, 1, None))
-                if phase == "gap" and low == self.G: pass
                 if phase == "gap": self.cover["byte_in_first_valid_cycle"] += 1
             phase, low = "in", 0
         elif op == "hi":
@@ -126,7 +125,6 @@ class BoundarySpec(Spec):
             elif phase == "pre":
                 self.cover["byte_less_packet"] += 1
             low = min(low + 1, self.G) if phase == "gap" else 1
-            in_packet_now = phase != "gap"
             phase = "gap"
         # input strobes
         mc, yc, mi, yi = acc
